@@ -141,7 +141,13 @@ fn parse_ifdata_item(
             } else {
                 let mut arrayitems = Vec::new();
                 for _ in 0..*dim {
+                    let tokenpos = parser.get_tokenpos();
                     arrayitems.push(parse_ifdata_item(parser, context, arraytype)?);
+                    if parser.get_tokenpos() == tokenpos {
+                        // the item did not consume any input (e.g. an empty taggedstruct), and neither will the
+                        // remaining items. A (possibly huge) array dimension must not cause useless work
+                        break;
+                    }
                 }
                 GenericIfData::Array(arrayitems)
             }
